@@ -405,6 +405,13 @@ def gen_custom(ctx):
                     fields.append(mk_field("ea%d%s" % (w, "x" if exhaustive else "o"), kind, w, [(N - 2 * w, N - w - 1)], count=2, custom=e["name"]))
                 if w >= 2 and w + 1 <= N:
                     fields.append(mk_field("el%d%s" % (w, "x" if exhaustive else "o"), kind, w, [(N - 1, N - 1), (0, w - 2)], custom=e["name"]))
+                # arrays of custom-typed elements with a stride that is neither the width nor a whole number of bytes, three or
+                # more elements, starting on and off a byte boundary (seeded S89)
+                for (lo, extra) in ((0, 4), (3, 1), (8, 5)):
+                    st = w + extra
+                    cnt = min(4, (N - lo - w) // st + 1) if N - lo - w >= 0 else 0
+                    if cnt >= 3:
+                        fields.append(mk_field("es%d%s_%d" % (w, "x" if exhaustive else "o", lo), kind, w, [(lo, lo + w - 1)], count=cnt, stride=st, custom=e["name"]))
         for fs in chunk(fields, 8):
             mk_bf(ctx, N, fs, ["custom-types", "profile"])
     # nested bitfields over native and arbitrary bases
@@ -417,6 +424,8 @@ def gen_custom(ctx):
                 fs.append(mk_field("arr", "nested", inner_n, [(0, inner_n - 1)], count=2, custom=inner["name"]))
             if inner_n >= 2 and inner_n + 1 <= N:
                 fs.append(mk_field("spl", "nested", inner_n, [(1, inner_n - 1), (0, 0)], custom=inner["name"]))
+            if 3 * (inner_n + 4) <= N:
+                fs.append(mk_field("sarr", "nested", inner_n, [(0, inner_n - 1)], count=3, stride=inner_n + 4, custom=inner["name"]))
             mk_bf(ctx, N, fs, ["custom-types", "profile"])
 
 
